@@ -485,6 +485,14 @@ def body(draw, env, depth, n_min=1, n_max=None, need_consuming=True, first_must_
             # (no char-append among foreach actions: the reference does not say whether the triggering byte counts as consumed when it overflows)
             acts = [a for a in [draw(action(env, allow=("assign", "hook", "delete", "assignstr"), last_ok=cfg.allow_last))
                                 for _ in range(draw(st.integers(1, 2)))] if a is not None]
+            if obey:
+                # the order of a per-byte action and a strict action of the body that nmfu schedules lazily on the same byte (e.g. the
+                # first action of a case clause) is not defined by the reference: with strict actions in the body, the per-byte actions
+                # are limited to ones whose position in that order cannot be observed
+                strict_inside = []
+                ir.walk(b, lambda s_: strict_inside.append(1) if (ir.is_action(s_) and is_strict(s_)) else None)
+                if strict_inside:
+                    acts = [a for a in acts if a[0] in ("assignstr", "delete") or (a[0] == "assign" and a[2][0] in ("num", "chr", "bool", "enum"))]
             if cfg.allow_last and draw(st.booleans()):
                 # per-byte decision on the byte itself: if $last ... { <actions that do not read $last> }
                 inner = [a for a in [draw(action(env, allow=("assign", "assignstr", "delete"), last_ok=False))] if a is not None]
